@@ -235,3 +235,53 @@ def stage_guards(qualname, stages, success_prefix="True"):
         return rec
     rec["status"] = "proved"
     return rec
+
+
+def call_guarded_by_min_reach(qualname, method, attr):
+    """Every call `<obj>.<method>(a, b)` in the function is control-dependent on a test `d <= min(..., a.<attr>, b.<attr>, ...)`
+    (or `<`): a wire between two poles is added only within the reach of BOTH ends."""
+    rec = {"name": f"{qualname.split('::')[-1]}: every .{method}(a, b) is guarded by d <= min(a.{attr}, b.{attr})",
+           "status": "undecided", "backend": "ast-control-dependence", "ms": 0.0}
+    try:
+        fs = source.get_function(qualname)
+    except Exception as e:
+        rec["detail"] = f"contract drift: {e}"
+        return rec
+    par = _parents(fs.node)
+    calls = [n for n in ast.walk(fs.node) if isinstance(n, ast.Call) and isinstance(n.func, ast.Attribute) and n.func.attr == method]
+    rec["vc"] = f"{len(calls)} call site(s) of .{method}()"
+    if not calls:
+        rec["detail"] = "no call site found (contract drift)"
+        return rec
+
+    def attr_of(node, name):
+        return isinstance(node, ast.Attribute) and node.attr == attr and isinstance(node.value, ast.Name) and node.value.id == name
+
+    def test_ok(test, a, b):
+        for n in ast.walk(test):
+            if isinstance(n, ast.Compare) and len(n.ops) == 1 and isinstance(n.ops[0], (ast.LtE, ast.Lt)):
+                rhs = n.comparators[0]
+                if isinstance(rhs, ast.Call) and isinstance(rhs.func, ast.Name) and rhs.func.id == "min":
+                    if any(attr_of(x, a) for x in rhs.args) and any(attr_of(x, b) for x in rhs.args):
+                        return True
+        return False
+
+    for c in calls:
+        if len(c.args) < 2 or not all(isinstance(x, ast.Name) for x in c.args[:2]):
+            rec["status"] = "violated"
+            rec["detail"] = f"line {c.lineno}: .{method}() not called on two named entities"
+            return rec
+        a, b = c.args[0].id, c.args[1].id
+        n, ok = c, False
+        while n in par:
+            p = par[n]
+            if isinstance(p, ast.If) and n in ast.walk(ast.Module(body=p.body, type_ignores=[])) and test_ok(p.test, a, b):
+                ok = True
+                break
+            n = p
+        if not ok:
+            rec["status"] = "violated"
+            rec["detail"] = f"line {c.lineno}: .{method}({a}, {b}) is not inside `if d <= min({a}.{attr}, {b}.{attr})`"
+            return rec
+    rec["status"] = "proved"
+    return rec
